@@ -81,6 +81,28 @@ class VNoneT(V):
 NONE = VNoneT()
 
 
+class VLazy(V):
+    """Value of a union type whose alternative is a solver term; the path forks only when an
+    operation needs to know which alternative it is (ctx.force), not when the value is copied.
+
+    alts: list of (condition z3 Bool, maker(ctx) -> V); the conditions are exclusive and exhaustive.
+    The materialised value is cached per path in ctx.lazy_cache."""
+
+    kind = "lazy"
+
+    def __init__(self, alts, hint=""):
+        self.alts = alts
+        self.hint = hint
+
+
+def VLazyOpt(present, maker, hint=""):
+    """Optional value: NONE unless `present`."""
+    import z3 as _z3
+    v = VLazy([(present, maker), (_z3.Not(present), lambda c: NONE)], hint)
+    v.present = present
+    return v
+
+
 class VTuple(V):
     kind = "tuple"
 
